@@ -59,6 +59,17 @@ static std::vector<sg4::Host*> hosts;
 static sg4::Link* the_link = nullptr;
 static std::vector<sg4::ActorPtr> aptr; // actors by program index (nullptr until created)
 static void run_actor(int idx);
+// an actor by program index: the creator may have died before recording the handle, so fall back on a lookup by name
+static sg4::ActorPtr actor_of(int idx)
+{
+  if (aptr[idx] != nullptr)
+    return aptr[idx];
+  std::string name = "a" + std::to_string(idx + 1);
+  for (auto const& a : sg4::Engine::get_instance()->get_all_actors())
+    if (a->get_name() == name)
+      return a;
+  return nullptr;
+}
 
 static long ticks_of(double t)
 {
@@ -166,17 +177,18 @@ static void run_actor(int idx)
       else if (n == "killtime")
         sg4::Actor::self()->set_kill_time(op.a[2] * TICK);
       else if (n == "kill") {
-        if (aptr[op.a[0] - 1] != nullptr)
-          aptr[op.a[0] - 1]->kill();
+        if (auto t = actor_of(op.a[0] - 1); t != nullptr)
+          t->kill();
       } else if (n == "killall")
         sg4::Actor::kill_all();
       else if (n == "join") {
-        if (aptr[op.a[0] - 1] == nullptr)
+        auto t = actor_of(op.a[0] - 1);
+        if (t == nullptr)
           abort();
         if (op.a[2] >= 0)
-          aptr[op.a[0] - 1]->join(op.a[2] * TICK);
+          t->join(op.a[2] * TICK);
         else
-          aptr[op.a[0] - 1]->join();
+          t->join();
       } else if (n == "hostoff")
         hosts[(op.a[0] - 1) % nhosts]->turn_off();
       else if (n == "hoston")
